@@ -29,6 +29,7 @@ func main() {
 		dump     = flag.String("dump", "", "debug: dump terms/facts of a function, e.g. header.Verify")
 		jobs     = flag.Int("j", 8, "parallel child processes for self-tests")
 		variant  = flag.String("variant", "", "internal: run one self-test variant (prop/index or prop/base)")
+		warm     = flag.Bool("warm", false, "load /repo once to warm the go build cache (used by setup_cmd)")
 	)
 	flag.Parse()
 	if *tier == "" {
@@ -56,6 +57,14 @@ func main() {
 	}
 	os.Unsetenv("GOWORK")
 
+	if *warm {
+		if p, err := an.Load(an.LoadOpts{Dir: *repo}); err != nil {
+			fmt.Println("warm-up load failed (checks will report it):", err)
+		} else {
+			fmt.Printf("warm-up: %d packages, %d files, %d functions, %s\n", len(p.Pkgs), p.NFiles, p.NFuncs, p.Toolchain)
+		}
+		return
+	}
 	if *dump != "" {
 		p, err := an.Load(an.LoadOpts{Dir: *repo})
 		if err != nil {
